@@ -157,6 +157,22 @@ def runX : XState M → List Event → Option (XState M)
     | some x' => runX x' es
     | none => none
 
+/-- the answers `ProcessBlock` gave to the deliveries of a run, in order. -/
+def resultsX : XState M → List Event → List Res
+  | _, [] => []
+  | x, e :: es =>
+    (match e with
+     | .deliver b => [(processBlockX x b).2]
+     | _ => []) ++
+    (match stepX x e with
+     | some x' => resultsX x' es
+     | none => [])
+
+/-- an answer that is not an error of the node: main / side / orphan / "already have it". -/
+def Res.fine : Res → Bool
+  | .main | .side | .orphan | .err .exist => true
+  | _ => false
+
 /-- the same events on the idealised model (unbounded pool, no clock). -/
 def stepB (s : State) : Event → Option State
   | .deliver b => some (processBlock s b).1
